@@ -1,2 +1,2 @@
 from .speclib import REG  # noqa
-from . import c_graph, c_rules, c_rule_builder, l_algebra, l_semantics, l_misc, c_strings, c_networkx, c_filters, c_diagram, c_parser, c_converter, c_layers, c_layermap  # noqa
+from . import c_graph, c_rules, c_rule_builder, l_algebra, l_semantics, l_misc, c_strings, c_networkx, c_filters, c_diagram, c_parser, c_converter, c_layers, c_layermap, l_layers  # noqa
